@@ -39,7 +39,7 @@ def cargo_env():
 
 def build_harness():
     if _built.get("harness"):
-        return HARNESS_BIN
+        return _built["harness"]
     t = time.time()
     manifest = os.path.join(HARNESS_DIR, "Cargo.toml")
     if REPO != "/repo":
